@@ -10,7 +10,7 @@ pub fn def() -> PropDef {
         builds: BOTH,
         rule: "F: every fragment sequence over a dyadic (width, whitespace, penalty) menu up to length n x 10 line-width lists, real wrap_first_fit compared with the greedy rule of the statement; T: every text over the C02 menus x first-fit configurations, the located lines mapped to runs of the public pipeline's fragments; non-trivial = a result with >= 2 lines",
         assumptions: BASE_ASSUMPTIONS,
-        floor: |t| t.pick(100_000, 1_000_000),
+        floor: |t| t.pick(100_000, 300_000),
         run,
     }
 }
